@@ -90,6 +90,7 @@ def _scope_program(run, mon, probes, key, prog, tag, shard=0):
         mech = None
         if (v["kind"].endswith("expected-accept") and v["op"] == "pd_check"
                 and v["config_in_force"]["validation_depth"] == "SCHEMA_ONLY"
+                and v["config_reported_by_pandera"] == v["config_in_force"]
                 and v["reason"] in ("DATAFRAME_CHECK", "CHECK_ERROR")):
             mech = "pandas-ColumnBackend.run_checks-ignores-validation-depth"
         run.violation(v["kind"], dict(v, program=prog), mech)
@@ -348,3 +349,60 @@ def finalize(run, ctx):
             floors[f"depth:{kind}:class:{cls}"] = 8 if q else 250
     for k, v in floors.items():
         run.floors[k] = v
+
+
+# ================================================================ replay
+def replay(path):
+    """Re-execute the witness of a replay file against the current tree.
+    Exit 1 when the violation reproduces, 0 when it does not."""
+    import json
+    import random
+    import pandera.config as c
+    with open(path) as f:
+        d = json.load(f)
+    w = d["witness"]
+    r = new_run()
+    if "program" in w and "mismatch" in w:
+        mon, probes = SC.Monitor(r), SC.Probes(r)
+        m = SC.run_program(w["program"], mon, leaf=probes)
+        print("mismatch:", m, "probe violations:", probes.violations)
+        bad = bool(m or probes.violations)
+    elif "program" in w:
+        mon, probes = SC.Monitor(r), SC.Probes(r)
+        SC.run_program(w["program"], mon, leaf=probes)
+        print("probe violations:", probes.violations)
+        bad = bool(probes.violations or mon.mismatch)
+    elif "env" in w and "spec" not in w:
+        setting = {k: w["env"].get(k) for k in E.VARS}
+        obs, err = E.run_child(setting)
+        if err:
+            print("child failed:", err)
+            return 2
+        viols, _ = E.judge(setting, obs)
+        for v in viols:
+            print(v[0], v[2], json.dumps(v[1])[:300])
+        bad = bool(viols)
+    else:
+        spec, table = w["spec"], w["table"]
+        kind = w["backend"]
+        backend = "pandas" if kind == "pandas" else "polars"
+        obj = _objs(backend, spec, table)[kind]
+        if "entry" in w:
+            rng = random.Random(0)
+            for _ in range(6):       # both coerce variants / column choices
+                _disabled(r, backend, kind, spec, table, obj, rng)
+        else:
+            parts = (spec, D.schema_part(spec), D.data_part(spec))
+            schemas = tuple((lambda p=p: _build(backend, p)) for p in parts)
+            _relations(r, backend, kind, spec, table, w.get("mutations"),
+                       w.get("lazy", False), schemas, obj)
+        for v in r.violations:
+            print(v["kind"], v["mechanism"],
+                  json.dumps({k: v["witness"].get(k) for k in
+                              ("verdicts", "schema_part", "data_part",
+                               "default", "errors_raised", "problem",
+                               "entry")}))
+        bad = bool(r.violations)
+    c.reset_config_context()
+    print("REPRODUCED" if bad else "NOT REPRODUCED")
+    return 1 if bad else 0
